@@ -50,6 +50,14 @@ Theorem C03_parts_in_line_order : forall sh l,
   Forall (fun its => increasing (map item_ln its)) (report (seq_run sh l)).
 Proof. exact report_line_order. Qed.
 
+(* a definition without an end reports exactly one section per line matching
+   its start pattern, however many there are (used by the many-sections
+   run of the harness, where only the number and the ids are compared) *)
+Theorem C03_noend_one_section_per_start : forall sh l,
+  has_end sh = false ->
+  length (report (seq_run sh l)) = length (filter is_start l).
+Proof. exact report_noend_count. Qed.
+
 (* --- earlier_sections_stable ------------------------------------------- *)
 (* the sections closed by a line of l1 are reported identically (same ids,
    same parts, same position) whatever follows l1 *)
@@ -287,6 +295,7 @@ Print Assumptions C03_sequence_exact.
 Print Assumptions C03_sequence_exact_ids.
 Print Assumptions C03_section_ids_distinct.
 Print Assumptions C03_parts_in_line_order.
+Print Assumptions C03_noend_one_section_per_start.
 Print Assumptions C03_earlier_sections_stable.
 Print Assumptions C03_spec_sections_prefix.
 Print Assumptions C03_independence.
